@@ -7,7 +7,11 @@ import Lox.LR.Check
   written `k`, rule `A` is written `-(A+1)`; a negative lhs is decoded the same way); production 0
   is `S' → start`. cert: one section per state separated by `;`, each a flat list `p d a p d a …`
   of items (production, dot, lookahead terminal).
-  answer: `ok` or `fail <reason>` (`Lox.LR.check`, sound by `Lox.LR.check_sound`).
+  answer: `ok` or `fail <reason>`: `ok` = `Lox.LR.check` (sound by `Lox.LR.check_sound`) and the
+  termination check `Lox.LR.termB` (sound by `Lox.LR.termB_spec`) both pass.
+
+`lr.validate_safe` (same payload): the soundness half only (`Lox.LR.checkSafe`, sound by
+  `Lox.LR.checkSafe_sound`) plus `termB` – for tables whose conflicts were resolved by precedence.
 
 `lr.errfree <nStates> | _actions`
   answer: `yes` if no state has an action on ERROR (terminal 1) (`Lox.LR.noErrorB`), else `no`. -/
@@ -27,7 +31,8 @@ def parseItems : List Int → Option (List Item)
     else (parseItems r).map (⟨p.toNat, d.toNat, a.toNat⟩ :: ·)
   | _ => none
 
-def handleValidate (payload : String) : Option String := do
+def parseValidate (payload : String) :
+    Option (Grammar × Nat × Nat × Tables × Array (List Item)) := do
   match payload.splitOn "|" with
   | [hd, prods, rules, tcs, acts, gotos, cert] =>
     let (nTerms, nRules) ← match ← parseNats hd with
@@ -38,11 +43,20 @@ def handleValidate (payload : String) : Option String := do
     let T : Tables := { rules := ← arr rules, termCounts := ← arr tcs,
                         actions := ← arr acts, gotos := ← arr gotos }
     let cert ← (← parseSections cert ';').mapM parseItems
-    match check ⟨prods.toArray⟩ nTerms nRules T cert.toArray with
-    | .ok () =>
-      if termB ⟨prods.toArray⟩ T cert.toArray then some "ok" else some "fail termination check"
-    | .error e => some ("fail " ++ e)
+    some (⟨prods.toArray⟩, nTerms, nRules, T, cert.toArray)
   | _ => none
+
+def handleValidate (payload : String) : Option String := do
+  let (G, nTerms, nRules, T, cert) ← parseValidate payload
+  match check G nTerms nRules T cert with
+  | .ok () => if termB G T cert then some "ok" else some "fail termination check"
+  | .error e => some ("fail " ++ e)
+
+def handleValidateSafe (payload : String) : Option String := do
+  let (G, nTerms, nRules, T, cert) ← parseValidate payload
+  match checkSafe G nTerms nRules T cert with
+  | .ok () => if termB G T cert then some "ok" else some "fail termination check"
+  | .error e => some ("fail " ++ e)
 
 def handleErrFree (payload : String) : Option String := do
   match payload.splitOn "|" with
